@@ -516,6 +516,71 @@ def gen_extras(start, want_types, specials):
     return out_fns, rows, i
 
 
+INT_TYPES = [t for t, (e, n, k) in VEC.items() if k == "vec" and e not in ("f32", "f64")]
+
+
+def gen_int_table(doc):
+    """Integer-vector operations whose shape involves a second glam type: TryFrom conversions, shifts by vectors,
+    mixed-sign wrapping/saturating/checked families, `as_*` casts. Emitted as macro calls for c18i.rs."""
+    idx = doc["index"]
+    lines = []
+    seen = set()
+    for key in sorted(idx, key=lambda k: int(k)):
+        it = idx[key]
+        if it.get("crate_id") != 0 or "impl" not in it["inner"]:
+            continue
+        im = it["inner"]["impl"]
+        if im.get("blanket_impl") or im.get("is_synthetic"):
+            continue
+        try:
+            for_t = parse_type(im["for"], None, {})
+        except Unsupported:
+            continue
+        if for_t.kind != "glam" or for_t.name not in INT_TYPES:
+            continue
+        T_ = for_t.name
+        trait = im["trait"]
+        tname = trait["path"].split("::")[-1] if trait else None
+        targs = []
+        if trait and trait.get("args") and "angle_bracketed" in trait["args"]:
+            for a in trait["args"]["angle_bracketed"]["args"]:
+                if "type" in a:
+                    try:
+                        targs.append(parse_type(a["type"], for_t, {}))
+                    except Unsupported:
+                        targs.append(None)
+        if tname == "TryFrom" and targs and targs[0] is not None and targs[0].kind == "glam" and targs[0].name in INT_TYPES:
+            lines.append("    tryfrom!(v, %s, %s);" % (T_, targs[0].name))
+        elif tname in ("Shl", "Shr") and targs and targs[0] is not None and targs[0].kind == "glam" and targs[0].name in INT_TYPES:
+            lines.append("    shiftv!(v, %s, %s, %s, %s);" % (T_, targs[0].name, tname, "<<" if tname == "Shl" else ">>"))
+        elif trait is None:
+            for iid in im["items"]:
+                x = idx.get(str(iid))
+                if not x or "function" not in x["inner"] or x.get("visibility") != "public":
+                    continue
+                fn = x["inner"]["function"]
+                try:
+                    args = [(n, parse_type(t, for_t, {})) for n, t in fn["sig"]["inputs"]]
+                    ret = parse_type(fn["sig"]["output"], for_t, {})
+                except Unsupported:
+                    continue
+                name = x["name"]
+                if len(args) == 2 and args[0][0] == "self" and args[1][1].kind == "glam" and args[1][1].name in INT_TYPES and args[1][1].name != T_:
+                    rhs = args[1][1].name
+                    if ret.kind == "glam" and ret.name == T_:
+                        lines.append("    mixed!(v, %s, %s, %s);" % (T_, rhs, name))
+                    elif ret.kind == "opt" and ret.inner.kind == "glam" and ret.inner.name == T_:
+                        lines.append("    mixed_checked!(v, %s, %s, %s);" % (T_, rhs, name))
+                elif len(args) == 1 and strip_ref(args[0][1]).kind == "glam" and name.startswith("as_") and ret.kind == "glam" and ret.name in INT_TYPES:
+                    lines.append("    cast!(v, %s, %s, %s);" % (T_, ret.name, name))
+    out = []
+    for l in lines:
+        if l not in seen:
+            seen.add(l)
+            out.append(l)
+    return out
+
+
 def main():
     if len(sys.argv) < 4:
         print("usage: apigen.py <glam.json> <out.rs> <out_api.json> [--all-float]", file=sys.stderr)
@@ -535,6 +600,10 @@ def main():
     src += [f.replace("fn op_", "pub fn op_", 1) for f in fns + xf]
     src += ["}", "use generated_fns::*;", "pub static OPS: &[OpDesc] = &["] + rows + xr + ["];"]
     open(sys.argv[2], "w").write("\n".join(src) + "\n")
+    int_lines = gen_int_table(doc)
+    open(os.path.join(os.path.dirname(sys.argv[2]), "int_generated.rs"), "w").write(
+        "// @generated by /verif/apigen.py: integer-vector operations involving a second glam type\n"
+        "pub fn generated_int_ops(v: &mut Vec<IntOp>) {\n" + "\n".join(int_lines) + "\n}\n")
     # skipped generic fns that the extras cover by hand are not "uncovered"
     covered_by_hand = ("::map", "::sum", "::product", "::fmt", "::hash")
     uncovered = [s for s in skipped if not s["fn"].endswith(covered_by_hand)]
